@@ -6,6 +6,8 @@ spec -> code: TLC enumerates MC_AttemptCredit (part "sched": built-in schedule g
               author may write) are called with and without the feature.  Python only tests *equality* with the
               documented (canonical) outcome carried in the state; whenever the observation differs in any way the
               case is handed to the trace specification, whose property-level Judge alone decides.
+design:       AttemptCreditSteps (one action per code block of apply_attempt_based_credit) is model-checked to refine the
+              documented result and to terminate; the code's own debug-log lines are compared with it (drift only).
 code -> spec: the observed values of every schedule of the grid and of random larger schedules (ScheduleOK), random
               larger grader calls (long lists, arbitrary 1e-4 grades, attempts up to 400, author-defined schedules
               returning int / float / numpy, debug on, unordered lists), the documented examples with the real
@@ -21,6 +23,7 @@ from decimal import Decimal
 from engine import dump, traces
 
 NOTE_RE = re.compile(r'Maximum credit for attempt #(-?\d+) is (-?[0-9][0-9.]*)%\.')
+LOG_RE = re.compile(r'Attempt number (-?\d+)|Maximum credit is (-?[0-9][0-9.e-]*)')
 MARK = 'BASEMSG%dq'
 SENTINEL = 0.4243          # what an author-defined schedule returns when asked for an attempt below 1
 UNIT = 10000
@@ -169,7 +172,21 @@ def project(res, base_res, debug=False):
             b = base_texts[j] if j < len(base_texts) else ''
             sep_ok = debug or t == (b + '<br/>\n<br/>\n' if b else '') + m.group(0)
     obs = {'raised': 'none', 'entries': obs_e, 'notes': notes, 'noteN': note_n, 'noteP': note_p, 'notePexact': bool(pexact)}
-    return obs, {'where': where, 'sep_ok': sep_ok, 'ptxt': ptxt}
+    extras = {'where': where, 'sep_ok': sep_ok, 'ptxt': ptxt}
+    if debug:                     # the procedure's own debug-log lines (step-level drift monitor)
+        log = []
+        for _, t in texts:
+            for m in LOG_RE.finditer(t or ''):
+                if m.group(1) is not None:
+                    log.append(['attempt', int(m.group(1))])
+                else:
+                    try:
+                        c4, ex = to_fixed(float(m.group(2)), UNIT)
+                    except ValueError:
+                        c4, ex = 0, False
+                    log.append(['max', c4 if ex else -1])
+        extras['log'] = log
+    return obs, extras
 
 
 def raised_obs(exc):
@@ -185,7 +202,10 @@ def observe_call(g_on, g_off, sobj, inputs, n, debug=False, missing=False):
     if sobj is None:
         c4, cexact = UNIT, True
     else:
-        c4, cexact = to_fixed(sobj(eff(n if not missing else 1)), UNIT)
+        try:
+            c4, cexact = to_fixed(sobj(eff(n if not missing else 1)), UNIT)
+        except Exception:            # a schedule that raises: the grader call below raises too and is judged as such
+            c4, cexact = 0, True
     try:
         res = g_on(None, inputs) if missing else g_on(None, inputs, attempt=n)
     except Exception as e:  # any class; the specification decides
@@ -398,8 +418,11 @@ def record_of(case, o):
         return {'id': case['id'], 'ev': 'missing', 'raised': o['obs']['raised'], 'case': case}
     if not o['c_exact']:
         return {'id': case['id'], 'ev': 'unjudged', 'why': 'schedule value not on the 1e-4 grid', 'case': case}
-    return {'id': case['id'], 'ev': 'scaled', 'flag': case['flag'], 'n': case['n'], 'c': o['c'], 'base': o['base'],
-            'obs': o['obs'], 'case': case}
+    rec = {'id': case['id'], 'ev': 'scaled', 'flag': case['flag'], 'n': case['n'], 'c': o['c'], 'base': o['base'],
+           'obs': o['obs'], 'case': case}
+    if 'log' in o.get('extras', {}):
+        rec['log'] = o['extras']['log']
+    return rec
 
 
 def observe_calls(cases, extra):
@@ -462,7 +485,8 @@ def observe_docs(items, extra):
 def strip(rec):
     """the part of a record TLC needs (and can read)"""
     keep = {'credit': ('id', 'ev', 'lo8', 'first_one', 'vals8'), 'formula': ('id', 'ev', 's', 'vals'),
-            'scaled': ('id', 'ev', 'flag', 'n', 'c', 'base', 'obs'), 'missing': ('id', 'ev', 'raised')}[rec['ev']]
+            'scaled': ('id', 'ev', 'flag', 'n', 'c', 'base', 'obs'), 'missing': ('id', 'ev', 'raised'),
+            'steplog': ('id', 'ev', 'n', 'c', 'log')}[rec['ev']]
     r = {k: rec[k] for k in keep}
     if rec['ev'] == 'formula':
         r['s'] = {k: v for k, v in rec['s'].items() if k != 'ty'}
@@ -483,19 +507,31 @@ def judge(ctx, recs, name):
         sig = {'class': 'schedule-raised', 'schedule': r['s'], 'clause': r['error']}
         ctx.violation(sig, 'schedule %s: %s' % (skey(r['s']), r['error']))
     todo = [r for r in recs if r['ev'] in ('credit', 'formula', 'scaled', 'missing') and not r.get('error')]
+    # step-level monitor: one extra record per debug call (ids are spaced by the callers)
+    todo += [{'id': r['id'] + 500000000, 'ev': 'steplog', 'n': r['n'], 'c': r['c'], 'log': r['log'], 'case': r['case']}
+             for r in recs if r['ev'] == 'scaled' and 'log' in r and r['obs']['raised'] == 'none']
     rej = traces.validate(ctx, 'graders/AttemptCreditTrace.tla', 'graders/AttemptCreditTrace.cfg',
                           [strip(r) for r in todo], name=name)
     byid = {r['id']: r for r in todo}
     per_class = {}
+    n_steplog = n_formula = 0
     for rid, clause in sorted(rej.items()):
         r = byid[rid]
-        if r['ev'] != 'formula':
+        if r['ev'] not in ('formula', 'steplog'):
             k = (r['ev'], clause)
             per_class[k] = per_class.get(k, 0) + 1
             if per_class[k] > 3:                  # at most three concrete cases per broken clause
                 continue
-        if r['ev'] == 'formula':
+        if r['ev'] == 'steplog':
+            n_steplog += 1
+            if n_steplog == 1:
+                ctx.note_drift('debug log of a call with attempt=%s, credit %s reads %s: not the step model AttemptCreditSteps (%s)'
+                               % (r['n'], r['c'] / 1e4, r['log'], json.dumps(r['case'], sort_keys=True)))
+        elif r['ev'] == 'formula':
             n = int(clause.rsplit('_', 1)[1]) if clause.startswith('formula_at_attempt_') else 0
+            n_formula += 1
+            if n_formula > 3:
+                continue
             ctx.note_drift('schedule %s: value %s at attempt %d is not the documented formula rounded to 4 decimals'
                            % (skey(r['s']), r['vals'][n - 1] / 1e4 if n else '?', n))
         elif r['ev'] == 'credit':
@@ -513,6 +549,8 @@ def judge(ctx, recs, name):
             ctx.violation(sig, 'grader call with attempt=%s, credit %s, base %s: %s; observed %s (%s)' % (
                 r.get('n'), r['c'] / 1e4, [e['g'] / 1e4 for e in r['base']], clause,
                 json.dumps(r['obs'], sort_keys=True), json.dumps(r['case'], sort_keys=True)))
+    if n_steplog > 1 or n_formula > 3:
+        ctx.note_drift('... %d debug-log and %d formula deviations in total in this batch' % (n_steplog, n_formula))
     more = {'%s:%s' % k: v - 3 for k, v in per_class.items() if v > 3}
     if more:
         ctx.extra.setdefault('further_rejections_not_listed', {}).update(more)
@@ -522,6 +560,8 @@ def judge(ctx, recs, name):
 def run(ctx):
     from engine.main import Machinery
     quick = ctx.quick
+    # ---------------- the implementation-shaped model refines the documented result (TLC only; safety + termination)
+    ctx.tlc('graders/AttemptCreditSteps.tla', 'graders/AttemptCreditSteps.cfg', timeout=1500)
     # ---------------- spec -> code
     totals = {'n_sched': 0, 'n_apply': 0, 'n_missing': 0, 'sched_ties': 0, 'overflow': 0}
     to_judge = []
@@ -549,7 +589,7 @@ def run(ctx):
     ctx.evaluations += n_replayed
     if not totals['n_sched'] or not totals['n_apply'] or not totals['n_missing']:
         raise Machinery('vacuous enumeration: %r' % totals)
-    for dft in sched_drift[:8]:
+    for dft in sched_drift[:4]:
         ctx.note_drift('schedule %s: attempt %d gives %s, documented formula gives %s' % (
             skey(dft['s']), dft['n'], dft['observed'], dft['documented'] / 1e4))
     for dft in sorted(set(off_drift))[:5]:
@@ -617,6 +657,13 @@ def run(ctx):
         'replayed_calls_not_identical_to_documented_result': n_differs,
         'random_schedules': n_rand_sched, 'random_grader_calls': n_calls, 'documented_example_calls': len(doc_recs),
         'max_list_length_random': 8, 'max_attempt_random': 400}
+    try:                          # informational: outside the quantified domain (see the second assumption)
+        from mitxgraders import LinearCredit
+        v = LinearCredit(minimum_credit=0.33333, decrease_credit_steps=2)(9)
+        ctx.extra['outside_quantified_domain'] = {
+            'LinearCredit(minimum_credit=0.33333, decrease_credit_steps=2)(9)': v, 'below_configured_minimum': bool(v < 0.33333)}
+    except Exception as e:
+        ctx.extra['outside_quantified_domain'] = {'probe failed': repr(e)}
     ctx.assumptions += [
         'author-defined schedules return values with at most 4 decimals (the grader rounds the value to 4 decimals before '
         'use; the statement speaks of "the schedule\'s value")',
